@@ -35,6 +35,15 @@ KINDS = ['misc', 'minlen', 'minmw', 'maxlen', 'sect', 'w2f', 'novel', 'add_recor
 def strategy_(draw, tier):
     d = D(draw)
     kind = d.choice(KINDS)
+    if kind in ('add_record', 'add_file') and d.chance(0.3):
+        # a fusion (or circRNA) record added to a transcript that also hosts a circRNA and
+        # small variants: the units share the transcript's record series
+        case = cveval.gen_case(d, family='fuscirc', enzymes=cveval.STRICT_ENZYMES, alt=True)
+        case['kind'] = 'add_record'
+        idx = [i for i, r in enumerate(case['records']) if r['kind'] in ('fusion', 'circ')]
+        if idx:
+            case['held_out'] = [d.choice(idx)]
+            return case
     if kind == 'backsplicing':
         fam = 'circ'
     elif kind == 'noncanonical':
